@@ -66,6 +66,15 @@ SetPaths(S) == /\ cfgPaths' = S /\ Signal /\ UNCHANGED <<cfgKind, failWatch, fai
 SetKind(k)  == /\ cfgKind' = k /\ Signal /\ UNCHANGED <<cfgPaths, failWatch, failUnwatch, errs>>
 OtherChange == /\ Signal /\ UNCHANGED <<cfgPaths, cfgKind, failWatch, failUnwatch, errs>>
 
+\* The watcher's own callback (process_event): k filesystem events then e errors arrive in one go.
+\* Events go to the bounded event queue with try_send: those beyond its free capacity are dropped,
+\* one runtime error each; an error from the watcher is passed on, one runtime error each.
+RECURSIVE Rep(_, _)
+Rep(x, n) == IF n <= 0 THEN <<>> ELSE <<x>> \o Rep(x, n - 1)
+CallbackBurst(k, e, free) ==
+    /\ errs' = errs \o Rep([op |-> "overflow", path |-> ""], k - free) \o Rep([op |-> "callback", path |-> ""], e)
+    /\ UNCHANGED <<cfgPaths, cfgKind, ver, failWatch, failUnwatch, F>>
+
 ---------------------------------------------------------------------------
 \* The worker
 
